@@ -1,6 +1,13 @@
 (* C05 — The event callback is never run by two threads at once. *)
-From MIO Require Import Base Node NodeProofs.
+From MIO Require Import Base Gen Node NodeProofs.
 Local Open Scope N_scope.
+
+(* what the model assumes of node.rs, re-read from the source on every run: in both listener modes
+   the callback is wrapped in Arc<std::sync::Mutex<..>>, every invocation after that goes through a
+   guard obtained from that mutex (the model's Lock / Unlock labels), and the file contains no unsafe
+   code but the Send impl that carries the wrapper to the signal thread *)
+Theorem C05_gen_obligation : NODE_CALLBACK_ONLY_UNDER_STD_MUTEX = true.
+Proof. vm_compute; reflexivity. Qed.
 
 (* In EVERY state reachable by ANY sequence of labels of the node.rs model — any interleaving of
    the network thread, the signal thread and other threads, any poll batches, any signals, any
@@ -26,5 +33,6 @@ Example C05_example :
   end.
 Proof. vm_compute. reflexivity. Qed.
 
+Print Assumptions C05_gen_obligation.
 Print Assumptions C05_callback_mutex.
 Print Assumptions C05_enter_excludes.
